@@ -113,3 +113,36 @@ package rawkv
 //@   at call(SendReq) assert request: arg_regionID == batch.RegionID && arg_req != nil && arg_req.Type == cmdType &&
 //@       (cmdType == tikvrpc.CmdRawBatchGet ==> arg_req.Req.(*kvrpcpb.RawBatchGetRequest).Keys == batch.Keys) && (cmdType == tikvrpc.CmdRawBatchDelete ==> arg_req.Req.(*kvrpcpb.RawBatchDeleteRequest).Keys == batch.Keys)
 //@   at call(sendBatchReq) assert again: arg_keys == batch.Keys && arg_cmdType == cmdType
+
+// ---- the single-key operations (C11): one request for exactly the key given, routed by that key; the answer is the store's ----
+// Get: a RawGet for the key; "not found" answers nil (no error), a found value is never nil (an empty value is an empty,
+// non-nil slice - the only way a caller can tell "empty" from "absent"), a store-side error string becomes an error.
+//@ func (c *Client) Get
+//@   prop C11
+//@   may-panic
+//@   opaque-callee getRawKVOptions getColumnFamily Observe Since Seconds
+//@   at call(sendReq) assert routed: arg_key == key && !arg_reverse && arg_req.Type == tikvrpc.CmdRawGet && arg_req.Req.(*kvrpcpb.RawGetRequest).Key == key
+//@   at return assert answer: result1 == nil && defined(cmdResp) ==> cmdResp.Error == "" && (cmdResp.NotFound ==> result0 == nil) && (!cmdResp.NotFound ==> result0 != nil)
+//@ func convertNilToEmptySlice
+//@   prop C11
+//@   ensures result != nil && len(result) == len(value)
+// Put (with or without a time-to-live): a RawPut carrying the key, the value and the time-to-live given, with the client's
+// compare-and-swap mode.
+//@ func (c *Client) PutWithTTL
+//@   prop C11
+//@   may-panic
+//@   opaque-callee getRawKVOptions getColumnFamily Observe Since Seconds
+//@   at call(sendReq) assert routed: arg_key == key && !arg_reverse && arg_req.Type == tikvrpc.CmdRawPut && arg_req.Req.(*kvrpcpb.RawPutRequest).Key == key &&
+//@       arg_req.Req.(*kvrpcpb.RawPutRequest).Value == value && arg_req.Req.(*kvrpcpb.RawPutRequest).Ttl == ttl && arg_req.Req.(*kvrpcpb.RawPutRequest).ForCas == c.atomic
+// Delete: a RawDelete for the key.
+//@ func (c *Client) Delete
+//@   prop C11
+//@   may-panic
+//@   opaque-callee getRawKVOptions getColumnFamily Observe Since Seconds Milliseconds
+//@   at call(sendReq) assert routed: arg_key == key && !arg_reverse && arg_req.Type == tikvrpc.CmdRawDelete && arg_req.Req.(*kvrpcpb.RawDeleteRequest).Key == key && arg_req.Req.(*kvrpcpb.RawDeleteRequest).ForCas == c.atomic
+// GetKeyTTL: a RawGetKeyTTL for the key (the answer's decoding goes through generated getters that are not modelled).
+//@ func (c *Client) GetKeyTTL
+//@   prop C11
+//@   may-panic
+//@   opaque-callee getRawKVOptions getColumnFamily Observe
+//@   at call(sendReq) assert routed: arg_key == key && !arg_reverse && arg_req.Type == tikvrpc.CmdGetKeyTTL && arg_req.Req.(*kvrpcpb.RawGetKeyTTLRequest).Key == key
